@@ -682,6 +682,18 @@ def _accessor_table(facts, rep, rid):
                     if x.get("k") == "match":
                         for a in x["arms"]:
                             pats.append((a["pat"], a["body"]))
+                    if x.get("k") == "let" and x.get("els") is not None and x.get("pat") is not None:
+                        # `let Some(Node::V(x)) = self.node() else { return None };` - what follows in the fn uses the bindings
+                        pats.append((x["pat"], g.body))
+                    if x.get("k") == "mcall" and (fb.callee(x) or "").startswith("liwe::model::node::Node::") and fb.callee(x) in facts.fns:
+                        # the payload is taken out by a method of Node (`node.reference_key()`): read that method's own patterns
+                        h_ = facts.fns[fb.callee(x)]
+                        for y in fb.walk(h_.body or {}):
+                            if y.get("k") == "if" and y["c"].get("k") == "letx":
+                                pats.append((y["c"]["pat"], y["t"]))
+                            if y.get("k") == "match":
+                                for a in y["arms"]:
+                                    pats.append((a["pat"], a["body"]))
                     for p, body in pats:
                         for s in A.arm_slots(facts, {"pat": p, "body": body, "guard": None}):
                             slot = s["slot"]
@@ -999,7 +1011,10 @@ def rule_r4(facts, rep, rid="C01-R4"):
         t = {}
         for vs, arm in A.arms_of(m):
             for v in vs:
-                t[fb.last_seg(v)] = (arm, set(s["slot"] for s in A.arm_slots(facts, arm) if s["state"] == "kept"))
+                # an or-pattern arm (`Code(_, t) | RawInline(_, t)`) lists the slots of all its alternatives: a variant is answerable for its own only
+                vn = fb.last_seg(v)
+                t[vn] = (arm, set(s["slot"] for s in A.arm_slots(facts, arm) if s["state"] == "kept" and (
+                    "::" not in s["slot"].split(">")[0].split(".")[0] or fb.last_seg(s["slot"].split(">")[0].split(".")[0]) == vn)))
         return t
     t1, t2 = table(f1, m1[0]), table(f2, m2[0])
     n = 0
